@@ -15,7 +15,7 @@ KINDS = ["gfn", "cfn-call", "cfn-bare", "prefix", "infix", "setter", "postfix"]
 ACTIONS = ["parse", "exec_fresh", "exec_same", "lock_ctx", "reg_fn", "reg_prefix", "reg_infix", "reg_postfix", "rereg_self", "exec_other_same"]
 
 
-def scenario(i, kind, action, nesting, pos):
+def scenario(i, kind, action, nesting, pos, pad=1500):
     """-> (steps, expectations dict)"""
     hid = 2000 + i * 10
     hname = "h%dx" % i  # unique per scenario (registries are process-global)
@@ -54,7 +54,7 @@ def scenario(i, kind, action, nesting, pos):
         steps.append({"op": "reg_fn", "name": nm, "beh": {"id": hid + lvl, "log": True, "probe": True, "ret": "last", "reenter": chain}})
         # in the 100-level chains every nested program is also LONG (1500 flat statements, no extra nesting): 100 nested evaluations of
         # ordinary size each, about 150 000 evaluated nodes in total
-        chain = {"act": "exec_same" if (action in ("exec_same", "lock_ctx")) else "exec_fresh", "text": "%s(5)" % nm + ("; 1" * 1500 if nesting >= DEEP else "")}
+        chain = {"act": "exec_same" if (action in ("exec_same", "lock_ctx")) else "exec_fresh", "text": "%s(5)" % nm + ("; 1" * pad if nesting >= DEEP else "")}
     beh = {"id": hid, "log": True, "probe": True, "ret": "last", "reenter": chain}
     ctx = {"op": "ctx", "id": i, "vars": {"w0": ["n", "41", 0], "v": ["n", "2", 0]}, "fns": {}}
     if kind == "gfn":
@@ -413,7 +413,8 @@ def run_shard(desc):
         return part
     steps, index = [], []
     for (i, kind, action, nesting, pos) in scns:
-        st, exp = scenario(i, kind, action, nesting, pos)
+        # under Miri (about four orders of magnitude slower) the 100-level chains carry 12 extra statements per level instead of 1500
+        st, exp = scenario(i, kind, action, nesting, pos, pad=12 if profile == "miri" else 1500)
         base = len(steps)
         steps.extend(st)
         scn_at = base + max(j for j, s in enumerate(st) if s.get("tag") == "scn")
